@@ -11,10 +11,19 @@ import ManifModel.Flat
 namespace Manif
 open Scalar
 
-/-- `compute_indices_gen<N, i, j, Args...>`: exclusive prefix sums. -/
-def computeIndices : List Nat → List Nat
+/-- `compute_indices_gen<N, i, j, Args...>::get()` (traits.h): the pack holds the sizes still to
+    be consumed followed by the offsets produced so far; each step consumes the first size `j`,
+    appends `i+j`; with one size left the result is `{0, Args...}`. -/
+def computeIndicesGen : Nat → List Nat → List Nat → List Nat
+  | _, [], outs => 0 :: outs
+  | _, [_last], outs => 0 :: outs
+  | i, j :: rest, outs => computeIndicesGen (i + j) rest (outs ++ [i + j])
+
+/-- `compute_indices<Args...>()` -/
+def computeIndices (sizes : List Nat) : List Nat :=
+  match sizes with
   | [] => []
-  | sizes => (sizes.dropLast.foldl (fun (acc : List Nat × Nat) s => (acc.1 ++ [acc.2 + s], acc.2 + s)) ([0], 0)).1
+  | _ => computeIndicesGen 0 sizes []
 
 /-- per element: RepSize, DoF, Dim, Transformation rows, LieAlg rows -/
 structure ElemSizes where
